@@ -172,6 +172,39 @@ Example C01_source_regex_nonvacuous :
   rx_search rx_redir_gt [97;62;98] = true.
 Proof. vm_compute. repeat split. Qed.
 
+(** Round 9 (continued): the two attached-redirection patterns of tokens_to_redirections against [match_gt] (yes/no:
+    GtFull iff ptn1 matches, GtOpen iff ptn2 matches; the captured groups are what the model returns), and the model's
+    [is_arithmetic] (the copy inside parse_line's model) as the composition of the three regexes of tools::is_arithmetic
+    (through its equality with Calc.is_arithmetic). ASTs regenerated from the source on every run. *)
+From Cicada Require Import Gen.ToolsRegexes Proofs.RedirPtnRegexProofs.
+From Cicada Require Proofs.ArithTokenizerEq.
+Theorem C01_redir_ptn1_is_source_regex : forall w,
+  (match match_gt w with GtFull _ _ _ => true | _ => false end) = rx_search rx_redir_ptn1 w.
+Proof. exact ptn1_is_source_regex. Qed.
+Theorem C01_redir_ptn2_is_source_regex : forall w,
+  (match match_gt w with GtOpen _ _ => true | _ => false end) = rx_search rx_redir_ptn2 w.
+Proof. exact ptn2_is_source_regex. Qed.
+Theorem C01_is_arithmetic_is_source_regex : forall l,
+  Tokenizer.is_arithmetic l =
+  if negb (rx_search rx_arith_digit l) then false
+  else if negb (rx_search rx_arith_op l) then false
+  else rx_search rx_arith_shape l.
+Proof. exact ArithTokenizerEq.tokenizer_is_arithmetic_is_source_regex. Qed.
+Check C01_redir_ptn1_is_source_regex : forall w,
+  (match match_gt w with GtFull _ _ _ => true | _ => false end) = rx_search rx_redir_ptn1 w.
+Check C01_redir_ptn2_is_source_regex : forall w,
+  (match match_gt w with GtOpen _ _ => true | _ => false end) = rx_search rx_redir_ptn2 w.
+Check C01_is_arithmetic_is_source_regex : forall l,
+  Tokenizer.is_arithmetic l =
+  if negb (rx_search rx_arith_digit l) then false
+  else if negb (rx_search rx_arith_op l) then false
+  else rx_search rx_arith_shape l.
+Example C01_source_regex_nonvacuous2 :
+  rx_search rx_redir_ptn1 [50;62;62;97] = true /\ rx_search rx_redir_ptn1 [50;62;62] = false /\
+  rx_search rx_redir_ptn2 [50;62;62] = true /\ rx_search rx_redir_ptn2 [62;97] = false /\
+  rx_search rx_redir_ptn1 [62;97;62] = false /\ rx_search rx_arith_shape [49;43;50] = true.
+Proof. vm_compute. repeat split. Qed.
+
 Print Assumptions C01_tokenize.
 Print Assumptions C01_plan_quoted.
 Print Assumptions C01_tokenize_mixed.
@@ -185,3 +218,6 @@ Print Assumptions C01_is_an_env_is_source_regex.
 Print Assumptions C01_split_env_is_source_regex.
 Print Assumptions C01_redir_fd_is_source_regex.
 Print Assumptions C01_redir_gt_is_source_regex.
+Print Assumptions C01_redir_ptn1_is_source_regex.
+Print Assumptions C01_redir_ptn2_is_source_regex.
+Print Assumptions C01_is_arithmetic_is_source_regex.
